@@ -18,7 +18,7 @@ META = {
             "<= 3 (4) entries over 2 endpoints / <= 2 (3) over 3 endpoints, every state assignment and request hash that the walk satisfies "
             "the statement.  The "
             "real newRing is run on every insertion order (all permutations for <= 3 endpoints) of the endpoint map for the same "
-            "endpoint sets plus default-sized and random sets (<= 12 endpoints, sizes <= 4096); the real picker built by "
+            "endpoint sets plus default-sized and random sets (<= 12 endpoints, sizes <= 4096), and the real ring_hash balancer (lbtest.RecCC) is taken through histories of resolver updates (endpoints added / removed / reordered, weight and / or hash-key attribute of known endpoints changed) that end in the same endpoint set, its final ring being compared with the ring of the direct update; the real picker built by "
             "newPickerLocked is run on 5 small rings for every state assignment (a sample of 40 in the quick tier) and request hashes just below / equal / just above "
             "every entry, 0, 2^64-1 (xDS request hash, header hash, random hash); TLC validates the recorded rings (hashes as four "
             "16-bit limbs) and pick results.",
@@ -46,6 +46,11 @@ def run(ctx):
     t2 = os.path.join(ctx.run, "pick.ndjson")
     ctx.driver(binary, "TestVerifC37Ring", {"VERIF_OUT": t1, "VERIF_N": ctx.pick(150, 3000), "VERIF_MAXN": ctx.pick(3, 4)})
     ctx.driver(binary, "TestVerifC37Pick", {"VERIF_OUT": t2, "VERIF_ASSIGN": ctx.pick(40, 256)})
+    # rings the real ring_hash balancer ends up with after different histories of resolver updates (appended to the ring cases)
+    tb = os.path.join(ctx.run, "balancer.ndjson")
+    ctx.driver(binary, "TestVerifC37Balancer", {"VERIF_OUT": tb, "VERIF_N": ctx.pick(6, 60)})
+    with open(t1, "a") as f:
+        f.write(open(tb).read())
     t3 = os.path.join(ctx.run, "all.ndjson")
     with open(t3, "w") as f:
         f.write(open(t1).read())
@@ -79,7 +84,7 @@ def run(ctx):
         if r["ev"] == "ringcfg":
             cur = r
         elif r["ev"] == "ring":
-            ctx.count(["ring", cur["ws"], cur["min"], cur["max"], r["perm"]], nontrivial=len(cur["ws"]) > 1)
+            ctx.count(["ring", cur["ws"], cur["min"], cur["max"], r["perm"], r.get("hist")], nontrivial=len(cur["ws"]) > 1)
         elif r["ev"] == "pick":
             npick += 1
             ctx.count(["pick", r["h"], r["random"], r["st"]], nontrivial=True)
